@@ -1228,7 +1228,115 @@ def apply_case(cid, mol, links, lines, pending):
     given = [canon_placements_in_order(u, names) for u, (_, names) in zip(used, els)]
     given += [[] for _ in range(len(links) - len(given))]
     lines.append(line('apply', nodes, edges, meta, inters, cites, [e for e, _ in els], given))
-    pending.append((cid, before, work, links, err, used, snaps, positions, states))
+    pending.append((cid, before, work, links, err, used, snaps, positions, states, []))
+
+
+def gen_variant(rng, mol, ff):
+    """another molecule with the SAME node keys: other coordinates, shifted / stretched residue numbering,
+    some attributes and bonds changed (a second chain of a system numbers its nodes from the same start)"""
+    new = Molecule(force_field=ff)
+    new.meta = dict(mol.meta) if rng.random() < 0.8 else {}
+    shift = rng.choice([0, 0, 3, -2, 10])
+    stretch = rng.choice([1, 1, 1, 2])
+    for n in mol.nodes:
+        d = dict(mol.nodes[n])
+        d['position'] = np.array([rng.uniform(-3, 3) for _ in range(3)])
+        d['resid'] = d['resid'] * stretch + shift
+        if rng.random() < 0.12:
+            d['cgsecstruct'] = rng.choice(SS)
+        if rng.random() < 0.08:
+            d['atype'] = rng.choice(['P', 'Q', 'N'])
+        new.add_node(n)
+        new.nodes[n].update(d)
+    edges = list(mol.edges)
+    if edges and rng.random() < 0.25:
+        edges.pop(rng.randrange(len(edges)))
+    new.add_edges_from(edges)
+    return new
+
+
+def history_case(cid, mols, links, mode, lines, pending):
+    """ONE force field (the same Link / effector objects) and ONE DoLinks instance applied to several
+    molecules in a row; every application is compared with the model (which has no memory), judged by
+    the oracles on ITS molecule, and must equal a fresh force field + fresh processor on that molecule"""
+    try:
+        els = [enc_link(l) for l in links]
+        encs = [enc_mol(m) for m in mols]
+    except Unsupported:
+        chk.count('skipped_unsupported_value')
+        return
+    pristine = copy.deepcopy(links)          # taken before anything ran
+    ff = ForceField(name='verif_c05_history')
+    ff.links = links
+    befores = [clone(m) for m in mols]
+    works = [clone(m, ff) for m in mols]
+    rec = {id(w): {'used': [], 'snaps': [], 'states': []} for w in works}
+    orig = do_links.match_link
+
+    def wrapper(molecule, link):
+        r = rec[id(molecule)]
+        r['states'].append(table_state(molecule))
+        try:
+            r['snaps'].append(list(orig(clone(molecule), link)))
+        except Exception:
+            r['snaps'].append(None)
+        cur = []
+        r['used'].append(cur)
+        for pl in orig(molecule, link):
+            cur.append(dict(pl))
+            yield pl
+    do_links.match_link = wrapper
+    errs_run = [None] * len(works)
+    proc = DoLinks()
+    try:
+        if mode == 'system':
+            system = vermouth.System(force_field=ff)
+            system.molecules = list(works)
+            try:
+                proc.run_system(system)
+            except (ValueError, TypeError, KeyError) as e:
+                errs_run = [type(e).__name__] * len(works)
+        else:
+            for j, w in enumerate(works):
+                try:
+                    proc.run_molecule(w)
+                except (ValueError, TypeError, KeyError) as e:
+                    errs_run[j] = type(e).__name__
+    finally:
+        do_links.match_link = orig
+    if mode == 'system' and any(errs_run):
+        chk.count('history_system_error_skipped')
+        return
+    for j, (m, w, b) in enumerate(zip(mols, works, befores)):
+        r = rec[id(w)]
+        extra = []
+        # the same molecule with a fresh force field and a fresh processor
+        fresh_ff = ForceField(name='verif_c05_fresh')
+        fresh_ff.links = copy.deepcopy(pristine)
+        fresh = clone(m, fresh_ff)
+        try:
+            DoLinks().run_molecule(fresh)
+            fresh_err = None
+        except (ValueError, TypeError, KeyError) as e:
+            fresh_err = type(e).__name__
+        if fresh_err != errs_run[j]:
+            extra.append('molecule %d of the history: outcome %s, with a fresh force field and processor %s'
+                         % (j, errs_run[j], fresh_err))
+        elif not fresh_err and not states_agree(real_state(w), real_state(fresh)):
+            extra.append('molecule %d of the history (node keys shared with the molecules before it): the result %s '
+                         'differs from the result of a fresh force field + fresh processor on the same molecule %s'
+                         % (j, show(real_state(w))[:600], show(real_state(fresh))[:600]))
+        nodes, edges, meta, inters, cites = encs[j]
+        positions = {n: m.nodes[n].get('position') for n in m.nodes}
+        given = [canon_placements_in_order(u, names) for u, (_, names) in zip(r['used'], els)]
+        given += [[] for _ in range(len(links) - len(given))]
+        lines.append(line('apply', nodes, edges, meta, inters, cites, [e for e, _ in els], given))
+        states = r['states'] + [table_state(w)]
+        pending.append(('%s-mol%d' % (cid, j), b, w, links, errs_run[j], r['used'], r['snaps'], positions, states, extra))
+        chk.count('history_molecules')
+        if j > 0 and any(isinstance(p, LinkParameterEffector) for l in links for lst in l.interactions.values()
+                         for i in lst for p in i.parameters) and sum(len(u) for u in r['used']):
+            chk.count('history_later_molecule_with_effector_placements')
 
 
 def canon_placements_in_order(placements, names):
@@ -1237,7 +1345,7 @@ def canon_placements_in_order(placements, names):
 
 def finish_apply_cases(lines, pending):
     models = chk.drv.ask(lines) if chk.lean_ok else [None] * len(lines)
-    for ln, mo, (cid, before, after, links, err, used, snaps, positions, states) in zip(lines, models, pending):
+    for ln, mo, (cid, before, after, links, err, used, snaps, positions, states, extra) in zip(lines, models, pending):
         errs, finding = [], None
         interfering = any(s is not None and sorted(map(lambda p: sorted(p.items(), key=str), s)) !=
                           sorted(map(lambda p: sorted(p.items(), key=str), u))
@@ -1251,6 +1359,7 @@ def finish_apply_cases(lines, pending):
             impl = show(impl_state)
             errs = apply_oracle(before, after, links, snaps, used, positions)
             errs += removal_oracle(states, links, used, positions)
+        errs += extra
         mstate = model_state(mo, positions) if mo is not None else None
         if mstate is None:
             mo_c = None
@@ -1498,6 +1607,51 @@ def link_stream():
         if not links:
             continue
         apply_case('apply-%d' % i, mol, links, alines, apending)
+    # histories: the same link objects and one processor over several molecules with coinciding node keys
+    for mode in ('system', 'molecule'):
+        ms = []
+        for scale, r0 in ((0.1, 1), (0.27, 11), (0.05, -4)):
+            m = Molecule(force_field=ff)
+            m.meta = {}
+            for k_ in range(4):
+                m.add_node(k_, atomname='BB', resid=r0 + k_, resname='ALA', atype='P',
+                           position=np.array([scale * k_, scale * k_ * k_, 0.3 * scale * (k_ % 3)]))
+            m.add_edges_from([(0, 1), (1, 2), (2, 3)])
+            ms.append(m)
+        hl = Link()
+        for nm, o in (('-BB', -1), ('BB', 0), ('+BB', 1), ('++BB', 2)):
+            hl.add_node(nm, atomname='BB', order=o)
+        hl.add_edges_from([('-BB', 'BB'), ('BB', '+BB'), ('+BB', '++BB')])
+        hl.interactions['bonds'] = [Interaction(atoms=('BB', '+BB'), parameters=['1', ParamDistance(['BB', '+BB']), '1250'], meta={})]
+        hl.interactions['angles'] = [Interaction(atoms=('-BB', 'BB', '+BB'), parameters=['2', ParamAngle(['-BB', 'BB', '+BB'], format_spec='.3f'), '25'], meta={})]
+        hl.interactions['dihedrals'] = [Interaction(atoms=('-BB', 'BB', '+BB', '++BB'),
+                                                    parameters=['1', ParamDihedral(['-BB', 'BB', '+BB', '++BB']),
+                                                                ParamDihedralPhase(['-BB', 'BB', '+BB', '++BB']), '1'], meta={})]
+        history_case('corpus-history-%s' % mode, ms, [hl], mode, alines, apending)
+    rng = chk.rng('history')
+    n = 2500 if chk.thorough else 450
+    for i in range(n):
+        mol = gen_molecule(rng, ff)
+        add_initial_interactions(rng, mol)
+        links = [gen_link(rng, mol, ninter=rng.choice([1, 2, 3])) for _ in range(rng.choice([1, 2, 3]))]
+        # make sure geometry-derived parameters are there
+        for l in links:
+            names = list(l.nodes)
+            if len(names) >= 2 and rng.random() < 0.7:
+                cls = rng.choice([c for c in (ParamDistance, ParamAngle, ParamDihedral, ParamDihedralPhase)
+                                  if c.n_keys_asked <= len(names)])
+                keys = rng.sample(names, cls.n_keys_asked)
+                l.interactions.setdefault('bonds' if cls is ParamDistance else 'restraints', []).append(
+                    Interaction(atoms=tuple(keys[:2]), parameters=['1', cls(keys, format_spec=rng.choice([None, None, '.4f']))],
+                                meta=rng.choice([{}, {'version': 1}])))
+        mols = [mol]
+        for _ in range(rng.choice([1, 1, 2])):
+            v = gen_variant(rng, mol, ff) if rng.random() < 0.9 else clone(mol)
+            add_initial_interactions(rng, v)
+            mols.append(v)
+        if rng.random() < 0.2:
+            mols.append(mols[0])           # the very same molecule again (as a fresh copy)
+        history_case('history-%d' % i, mols, links, rng.choice(['system', 'molecule']), alines, apending)
     finish_apply_cases(alines, apending)
 
 
